@@ -1096,6 +1096,9 @@ func (e *Evaluator) evalPatternRules(patternRules []*Rule) error {
 }
 
 func (e *Evaluator) GetRootJson() (string, error) {
+	if e.root == nil {
+		return "", fmt.Errorf("no input value to convert to JSON")
+	}
 	val, err := e.root.Value.ToGoValue()
 	if err != nil {
 		return "", err
